@@ -3,6 +3,7 @@ use std::hash::{Hash, Hasher};
 use std::ops::Deref;
 
 use crate::check::context::arg::generic::GenericFunctionArg;
+use crate::check::ident::LITERAL_NAMES;
 use crate::check::name::string_name::StringName;
 use crate::check::name::Name;
 use crate::check::result::{TypeErr, TypeResult};
@@ -123,6 +124,10 @@ impl TryFrom<&AST> for GenericFunction {
 
 pub fn function_name(ast: &AST) -> TypeResult<StringName> {
     match &ast.node {
+        Node::Id { lit } if LITERAL_NAMES.contains(&lit.as_str()) => {
+            let msg = format!("{lit} is a literal, it cannot be the name of a function");
+            Err(vec![TypeErr::new(ast.pos, &msg)])
+        }
         Node::Id { lit } => Ok(StringName::from(lit.as_str())),
         _ => Err(vec![TypeErr::new(ast.pos, "Expected function true_name")]),
     }
